@@ -490,36 +490,55 @@ Proof.
   rewrite qsum_cons, Q2R_plus, IH. reflexivity.
 Qed.
 
+(* any bus type value; for a type other than CAN 2.0A (frame constants 0) an empty message has 0
+   bits and its rate is 0, outside the normal range of the analysis: sizes 1..8 there *)
 Definition float_domain (b : bus) (def : Z) : Prop :=
-  b_typ b = 0%Z /\ (1 <= b_baud b < 2 ^ 53)%Z /\ (1 <= def <= 3600000)%Z
+  (1 <= b_baud b < 2 ^ 53)%Z /\ (1 <= def <= 3600000)%Z
   /\ bus_msgs b <> [] /\ (length (bus_msgs b) <= 900)%nat
-  /\ Forall (fun m => (0 <= m_size m <= 8)%Z /\ (0 <= m_cycle m <= 3600000)%Z) (bus_msgs b).
+  /\ Forall (fun m => (0 <= m_size m <= 8)%Z /\ (b_typ b <> 0%Z -> 1 <= m_size m)%Z
+                      /\ (0 <= m_cycle m <= 3600000)%Z) (bus_msgs b).
 
 (* what the Go code feeds to the float computation: frame bits and effective cycle per message *)
 Definition float_inputs (b : bus) (def : Z) : list (Z * Z) :=
-  map (fun m => (frame_bits 0 (m_size m), cycle_or_default (m_cycle m) def)) (bus_msgs b).
+  map (fun m => (frame_bits (b_typ b) (m_size m), cycle_or_default (m_cycle m) def)) (bus_msgs b).
 
 Definition load_float (b : bus) (def : Z) : binary64 := load_f (rates_f (float_inputs b def)) (b_baud b).
 
+Lemma frame_bits_range : forall typ n, (0 <= n <= 8)%Z -> (typ <> 0%Z -> 1 <= n)%Z ->
+  (1 <= frame_bits typ n <= 256)%Z.
+Proof.
+  intros typ n Hn Ht. destruct (Z.eq_dec typ 0) as [->|Hne].
+  - rewrite frame_bits_spec_lemma by lia.
+    pose proof (Z.div_le_lower_bound (34 + 8 * n - 1) 4 0 ltac:(lia) ltac:(lia)).
+    pose proof (Z.div_le_upper_bound (34 + 8 * n - 1) 4 25 ltac:(lia) ltac:(lia)). lia.
+  - specialize (Ht Hne). unfold frame_bits, stuffing_bits, header_bits, trailer_bits, header_stuffing_bits.
+    replace (typ =? 0)%Z with false by (symmetry; apply Z.eqb_neq; exact Hne).
+    rewrite Z.quot_div_nonneg by lia.
+    pose proof (Z.div_le_lower_bound (0 + n * 8 - 1) 4 0 ltac:(lia) ltac:(lia)).
+    pose proof (Z.div_le_upper_bound (0 + n * 8 - 1) 4 16 ltac:(lia) ltac:(lia)). lia.
+Qed.
+
+Lemma cycle_range : forall c def, (1 <= def <= 3600000)%Z -> (0 <= c <= 3600000)%Z ->
+  (1 <= cycle_or_default c def <= 3600000)%Z.
+Proof. intros c def Hd Hc. unfold cycle_or_default. destruct (c =? 0)%Z eqn:E; lia. Qed.
+
 Lemma float_inputs_ok : forall b def, float_domain b def -> Forall ok_msg (float_inputs b def).
 Proof.
-  intros b def [_ [_ [Hd [_ [_ Hm]]]]]. unfold float_inputs. apply Forall_forall. intros p Hp.
+  intros b def [_ [Hd [_ [_ Hm]]]]. unfold float_inputs. apply Forall_forall. intros p Hp.
   apply in_map_iff in Hp. destruct Hp as [m [<- Hin]]. rewrite Forall_forall in Hm.
-  destruct (Hm m Hin) as [Hs Hc]. unfold ok_msg. cbn [fst snd]. split.
-  - rewrite frame_bits_spec_lemma by lia.
-    pose proof (Z.div_le_lower_bound (34 + 8 * m_size m - 1) 4 0 ltac:(lia) ltac:(lia)).
-    pose proof (Z.div_le_upper_bound (34 + 8 * m_size m - 1) 4 25 ltac:(lia) ltac:(lia)). lia.
-  - unfold cycle_or_default. destruct (m_cycle m =? 0)%Z eqn:E; lia.
+  destruct (Hm m Hin) as [Hs [Ht Hc]]. unfold ok_msg. cbn [fst snd]. split.
+  - apply frame_bits_range; assumption.
+  - apply cycle_range; assumption.
 Qed.
 
 Lemma inject_Z_nonzero : forall z, z <> 0%Z -> ~ inject_Z z == 0.
 Proof. intros z Hz E. unfold Qeq, inject_Z in E. simpl in E. lia. Qed.
 
-Lemma exact_term_real : forall def m,
+Lemma exact_term_real : forall typ def m,
   (1 <= def <= 3600000)%Z -> (0 <= m_cycle m <= 3600000)%Z ->
-  Q2R (bps 0 def m) = bps_x (frame_bits 0 (m_size m)) (cycle_or_default (m_cycle m) def).
+  Q2R (bps typ def m) = bps_x (frame_bits typ (m_size m)) (cycle_or_default (m_cycle m) def).
 Proof.
-  intros def m Hd Hc. unfold bps, bps_x.
+  intros typ def m Hd Hc. unfold bps, bps_x.
   assert (HC : ~ inject_Z (cycle_or_default (m_cycle m) def) == 0).
   { apply inject_Z_nonzero. unfold cycle_or_default. destruct (m_cycle m =? 0)%Z eqn:E; lia. }
   rewrite Q2R_mult, Q2R_div by exact HC. rewrite !Q2R_inject_Z. reflexivity.
@@ -529,15 +548,15 @@ Lemma exact_load_real : forall b def load es,
   float_domain b def -> calculate_bus_load b def = BLOk load es ->
   Q2R load = sum_x (rates_x (float_inputs b def)) / IZR (b_baud b) * 100.
 Proof.
-  intros b def load es [Ht [Hb [Hd [_ [_ Hm]]]]] H.
+  intros b def load es [Hb [Hd [_ [_ Hm]]]] H.
   apply load_is_sum_lemma in H; [|lia..].
   apply Qeq_eqR in H. rewrite H.
   rewrite Q2R_mult, Q2R_div by (apply inject_Z_nonzero; lia).
   rewrite !Q2R_inject_Z, Q2R_qsum. f_equal. f_equal.
-  rewrite Ht. unfold float_inputs, rates_x, sum_x. rewrite !map_map. f_equal.
+  unfold float_inputs, rates_x, sum_x. rewrite !map_map. f_equal.
   apply map_ext_in. intros m Hin. cbn [fst snd].
-  rewrite Forall_forall in Hm. destruct (Hm m Hin) as [_ Hc].
-  apply (exact_term_real def m Hd Hc).
+  rewrite Forall_forall in Hm. destruct (Hm m Hin) as [_ [_ Hc]].
+  apply (exact_term_real (b_typ b) def m Hd Hc).
 Qed.
 
 (* the float64 result is finite and within n * 2^-50 (relative) of the exact load *)
@@ -550,7 +569,7 @@ Proof.
   intros b def load es Hdom H.
   pose proof (float_inputs_ok b def Hdom) as Hok.
   pose proof (exact_load_real b def load es Hdom H) as HE.
-  destruct Hdom as [Ht [Hb [Hd [Hne [Hn Hm]]]]].
+  destruct Hdom as [Hb [Hd [Hne [Hn Hm]]]].
   assert (Hlen : length (float_inputs b def) = length (bus_msgs b)) by (unfold float_inputs; apply map_length).
   assert (Hne' : float_inputs b def <> []) by (intros E; apply Hne; apply length_zero_iff_nil; rewrite <- Hlen, E; reflexivity).
   destruct (load_float_close_R (float_inputs b def) (b_baud b) Hne' Hok ltac:(lia) Hb) as [F [H1 H2]].
@@ -563,7 +582,7 @@ Qed.
 (* ---------- an instance: the fixture of Proofs.v (three messages, 250 kbit/s, default 500 ms) ---------- *)
 Example float_domain_witness : float_domain ex_bus 500.
 Proof.
-  unfold float_domain. split; [reflexivity|]. split; [cbn; lia|]. split; [lia|].
+  unfold float_domain. split; [cbn; lia|]. split; [lia|].
   split; [discriminate|]. split; [cbn; lia|]. repeat constructor; cbn; lia.
 Qed.
 
@@ -581,4 +600,150 @@ Proof.
   destruct (load_float_close_lemma ex_bus 500 load es float_domain_witness E) as [_ H].
   replace (INR (length (bus_msgs ex_bus))) with 3 in H by (cbn; lra).
   exact H.
+Qed.
+
+(* ====================== (D) per-message rates: bound, order under rounding ====================== *)
+Definition rate_float (b : bus) (def : Z) (m : msg) : binary64 :=
+  bps_f (frame_bits (b_typ b) (m_size m)) (cycle_or_default (m_cycle m) def).
+
+Lemma msg_ok : forall b def m, float_domain b def -> In m (bus_msgs b) ->
+  ok_msg (frame_bits (b_typ b) (m_size m), cycle_or_default (m_cycle m) def).
+Proof.
+  intros b def m Hdom Hin. pose proof (float_inputs_ok b def Hdom) as H.
+  rewrite Forall_forall in H. apply H. unfold float_inputs. apply in_map_iff. exists m. split; [reflexivity | exact Hin].
+Qed.
+
+(* the float64 BitsPerSec of a message: finite, within 2^-51 (relative) of the exact rate *)
+Theorem rate_float_close_lemma : forall b def m,
+  float_domain b def -> In m (bus_msgs b) ->
+  is_finite 53 1024 (rate_float b def m) = true
+  /\ Rabs (B2R 53 1024 (rate_float b def m) - Q2R (bps (b_typ b) def m))
+     <= bpow radix2 (-51) * Q2R (bps (b_typ b) def m).
+Proof.
+  intros b def m Hdom Hin. pose proof (msg_ok b def m Hdom Hin) as Hok.
+  destruct (bps_f_correct _ _ Hok) as [E F]. destruct (bps_r_spec _ _ Hok) as [Ha [_ [_ [_ Hp]]]].
+  destruct Hdom as [_ [Hd [_ [_ Hm]]]]. rewrite Forall_forall in Hm. destruct (Hm m Hin) as [_ [_ Hc]].
+  rewrite (exact_term_real (b_typ b) def m Hd Hc).
+  split; [exact F|]. unfold rate_float. fold (R64 (bps_f (frame_bits (b_typ b) (m_size m)) (cycle_or_default (m_cycle m) def))).
+  rewrite E.
+  assert (Hk : INR 2 * u <= / 2) by (unfold u; simpl; lra).
+  pose proof (approx_abs 2 _ _ (Rlt_le _ _ Hp) Hk Ha) as H.
+  replace (bpow radix2 (-51)) with (2 * INR 2 * u) by (unfold u; simpl; lra). exact H.
+Qed.
+
+Lemma rnd_mono : forall x y, x <= y -> rnd x <= rnd y.
+Proof. intros x y H. apply round_le; [typeclasses eauto.. | exact H]. Qed.
+
+(* rounding is monotone: a larger exact quotient never gives a smaller float64 rate *)
+Lemma bps_r_mono : forall b c b' c', IZR b / IZR c <= IZR b' / IZR c' -> bps_r b c <= bps_r b' c'.
+Proof. intros b c b' c' H. unfold bps_r. apply rnd_mono. apply Rmult_le_compat_r; [lra | apply rnd_mono; exact H]. Qed.
+
+Theorem rate_float_order_lemma : forall b def m m',
+  float_domain b def -> In m (bus_msgs b) -> In m' (bus_msgs b) ->
+  (bps (b_typ b) def m <= bps (b_typ b) def m')%Q ->
+  B2R 53 1024 (rate_float b def m) <= B2R 53 1024 (rate_float b def m').
+Proof.
+  intros b def m m' Hdom Hin Hin' Hle.
+  destruct (bps_f_correct _ _ (msg_ok b def m Hdom Hin)) as [E _].
+  destruct (bps_f_correct _ _ (msg_ok b def m' Hdom Hin')) as [E' _].
+  unfold rate_float. unfold R64 in E, E'. rewrite E, E'.
+  apply bps_r_mono. apply Qle_Rle in Hle.
+  destruct Hdom as [_ [Hd [_ [_ Hm]]]]. rewrite Forall_forall in Hm.
+  rewrite (exact_term_real _ def m Hd (proj2 (proj2 (Hm m Hin)))) in Hle.
+  rewrite (exact_term_real _ def m' Hd (proj2 (proj2 (Hm m' Hin')))) in Hle.
+  unfold bps_x in Hle. lra.
+Qed.
+
+(* the precise meaning of "ordered by non-increasing bits per second" for float64 figures: if an
+   entry's float rate is strictly above another's, so is its exact rate; hence two entries in the
+   "wrong" exact order can only be adjacent in a float-sorted list when their float rates are EQUAL
+   (a tie created by rounding) *)
+Theorem rate_float_strict_lemma : forall b def m m',
+  float_domain b def -> In m (bus_msgs b) -> In m' (bus_msgs b) ->
+  B2R 53 1024 (rate_float b def m') < B2R 53 1024 (rate_float b def m) ->
+  (bps (b_typ b) def m' < bps (b_typ b) def m)%Q.
+Proof.
+  intros b def m m' Hdom Hin Hin' Hlt.
+  destruct (Qlt_le_dec (bps (b_typ b) def m') (bps (b_typ b) def m)) as [H|H]; [exact H|].
+  pose proof (rate_float_order_lemma b def m m' Hdom Hin Hin' H). lra.
+Qed.
+
+Lemma StronglySorted_weaken_in : forall (A : Type) (R R' : A -> A -> Prop) (l : list A),
+  Sorted.StronglySorted R l -> (forall a b, In a l -> In b l -> R a b -> R' a b) -> Sorted.StronglySorted R' l.
+Proof.
+  intros A R R' l H. induction H as [|a l Hs IH Hf]; intros Himp; [constructor|].
+  constructor.
+  - apply IH. intros x y Hx Hy. apply Himp; right; assumption.
+  - rewrite Forall_forall in *. intros x Hx. apply Himp; [left; reflexivity | right; exact Hx | apply Hf; exact Hx].
+Qed.
+
+(* the order the exact model returns is also non-increasing in the float64 rates: any float-sorted
+   output of the implementation differs from it at most in the order of float-equal rates *)
+Theorem model_order_float_sorted_lemma : forall b def load es,
+  float_domain b def -> calculate_bus_load b def = BLOk load es ->
+  Sorted.StronglySorted (fun a c => B2R 53 1024 (rate_float b def (e_msg c)) <= B2R 53 1024 (rate_float b def (e_msg a))) es.
+Proof.
+  intros b def load es Hdom H.
+  assert (Hd : (0 < def)%Z) by (destruct Hdom as [_ [Hd _]]; lia).
+  assert (Hb : b_baud b <> 0%Z) by (destruct Hdom as [Hb _]; lia).
+  pose proof (entries_bps_lemma b def load es Hd Hb H) as He. rewrite Forall_forall in He.
+  apply StronglySorted_weaken_in with (R := desc); [apply (sorted_desc_lemma b def load es H)|].
+  intros a c Ha Hc Hdesc. unfold desc in Hdesc.
+  destruct (He a Ha) as [Ea Ia]. destruct (He c Hc) as [Ec Ic].
+  apply rate_float_order_lemma; try assumption. rewrite <- Ea, <- Ec. exact Hdesc.
+Qed.
+
+(* ====================== (E) monotonicity of the float64 load (same visiting order) ====================== *)
+Lemma sum_r_mono : forall ts ts' acc acc', Forall2 Rle ts ts' -> acc <= acc' -> sum_r ts acc <= sum_r ts' acc'.
+Proof.
+  intros ts ts' acc acc' H. revert acc acc'. induction H as [|t t' r r' Ht _ IH]; intros acc acc' Ha; [exact Ha|].
+  cbn [sum_r fold_left]. apply IH. apply rnd_mono. lra.
+Qed.
+
+Lemma load_r_mono : forall ts ts' baud, (1 <= baud)%Z -> Forall2 Rle ts ts' -> load_r ts baud <= load_r ts' baud.
+Proof.
+  intros ts ts' baud Hb H. unfold load_r. apply IZR_le in Hb.
+  apply rnd_mono. apply Rmult_le_compat_r; [lra|]. apply rnd_mono.
+  unfold Rdiv. apply Rmult_le_compat_r; [apply Rlt_le, Rinv_0_lt_compat; lra|].
+  apply sum_r_mono; [exact H | lra].
+Qed.
+
+(* one message enlarged (same cycle) or its effective cycle shortened (same size), or unchanged *)
+Definition grows (typ def : Z) (m m' : msg) : Prop :=
+  ((m_size m <= m_size m')%Z /\ cycle_or_default (m_cycle m') def = cycle_or_default (m_cycle m) def)
+  \/ (m_size m' = m_size m /\ (cycle_or_default (m_cycle m') def <= cycle_or_default (m_cycle m) def)%Z).
+
+(* enlarging messages / shortening cycle times never decreases the FLOAT64 load, for the same
+   visiting order (rounding is monotone, so no slack is needed) *)
+Theorem load_float_monotone_lemma : forall b b' def,
+  float_domain b def -> float_domain b' def -> b_typ b' = b_typ b -> b_baud b' = b_baud b ->
+  Forall2 (grows (b_typ b) def) (bus_msgs b) (bus_msgs b') ->
+  B2R 53 1024 (load_float b def) <= B2R 53 1024 (load_float b' def).
+Proof.
+  intros b b' def Hdom Hdom' Ht Hb Hg.
+  pose proof (float_inputs_ok b def Hdom) as Hok. pose proof (float_inputs_ok b' def Hdom') as Hok'.
+  assert (Hne : forall x d, float_domain x d -> float_inputs x d <> []).
+  { intros x d [_ [_ [Hn _]]] E. apply Hn. unfold float_inputs in E. destruct (bus_msgs x); [reflexivity | discriminate]. }
+  assert (Hlen : forall x d, float_domain x d -> (length (float_inputs x d) <= 900)%nat).
+  { intros x d [_ [_ [_ [Hn _]]]]. unfold float_inputs. rewrite map_length. exact Hn. }
+  destruct (load_f_correct (float_inputs b def) (b_baud b) (Hne _ _ Hdom) Hok (Hlen _ _ Hdom) (proj1 Hdom)) as [E _].
+  destruct (load_f_correct (float_inputs b' def) (b_baud b') (Hne _ _ Hdom') Hok' (Hlen _ _ Hdom') (proj1 Hdom')) as [E' _].
+  unfold load_float. unfold R64 in E, E'. rewrite E, E', Hb.
+  apply load_r_mono; [destruct Hdom as [Hb1 _]; lia|].
+  unfold float_inputs, rates_r. rewrite !map_map. cbn [fst snd]. rewrite Ht.
+  destruct Hdom as [_ [Hd [_ [_ Hm]]]]. destruct Hdom' as [_ [_ [_ [_ Hm']]]]. rewrite Ht in Hm'.
+  clear E E' Hok Hok' Hne Hlen.
+  induction Hg as [|m m' r r' Hmm _ IH]; [constructor|].
+  inversion Hm as [|? ? [Hs [Hs1 Hc]] Hmr]; subst. inversion Hm' as [|? ? [Hs' [Hs1' Hc']] Hmr']; subst.
+  constructor; [|apply IH; assumption].
+  apply bps_r_mono.
+  pose proof (cycle_range _ def Hd Hc) as Hcr. pose proof (cycle_range _ def Hd Hc') as Hcr'.
+  pose proof (frame_bits_range _ _ Hs Hs1) as Hbr. pose proof (frame_bits_range _ _ Hs' Hs1') as Hbr'.
+  set (c := cycle_or_default (m_cycle m) def) in *. set (c' := cycle_or_default (m_cycle m') def) in *.
+  assert (0 < IZR c) by (apply IZR_lt; lia). assert (0 < IZR c') by (apply IZR_lt; lia).
+  destruct Hmm as [[Hsz Hcy] | [Hsz Hcy]].
+  - fold c c' in Hcy. rewrite Hcy. unfold Rdiv. apply Rmult_le_compat_r; [apply Rlt_le, Rinv_0_lt_compat; assumption|].
+    apply IZR_le. apply frame_bits_mono_any; lia.
+  - rewrite Hsz. unfold Rdiv. apply Rmult_le_compat_l; [apply IZR_le; lia|].
+    apply Rinv_le; [assumption | apply IZR_le; exact Hcy].
 Qed.
